@@ -623,6 +623,27 @@ def discharge_by_guard(p, s):
             if c and c.get("kind") == "int" and c.get("value") != -1:
                 return "constant divisor %s" % c.get("value")
             return None
+        if k == "Overflow(Add)":
+            # c + 1 where c < bound was just tested (same integer type): c + 1 <= bound, representable
+            a_, b_ = s.t["ops"]
+            c_ = b_.get("const")
+            l_ = _local_of(a_)
+            if c_ and c_.get("kind") == "int" and c_.get("value") == 1 and l_ is not None:
+                l_ = _root_local(fn, l_)
+                edges_ = set()
+                for blk in fn.blocks:
+                    if blk["term"]["k"] != "switch" or blk["id"] not in fn.reachable_blocks() or not SwitchInfo(fn, blk["id"]).is_bool:
+                        continue
+                    si_ = SwitchInfo(fn, blk["id"])
+                    for truth in (True, False):
+                        nf = _cmp_locals(fn, blk["term"]["discr"], truth)
+                        if nf and nf[0] == "Lt" and nf[1] == ("local", l_) and nf[2][0] == "local":
+                            tl = fn.locals[nf[2][1]] if nf[2][1] < len(fn.locals) else None
+                            if tl == fn.locals[l_] and si_.target_of(truth) is not None:
+                                edges_.add((blk["id"], si_.target_of(truth)))
+                defs_ = _blocks_defining(fn, l_)
+                if edges_ and must_hold_at(fn, s.block, lambda x, y: (x, y) in edges_, lambda x: False, lambda x: x in defs_ and x != s.block):
+                    return "the counter _%d was tested below a bound of its own type on every path to `+ 1` (and not changed since): the sum is at most that bound" % l_
         if k == "Overflow(Add)" and bounded_counter(fn, s.block, s.t["ops"]):
             return "a usize/u64 counter that starts at a small constant and is only ever incremented by 1, at most once per element taken from an in-memory iterator (it cannot exceed the number of elements)"
         if k == "Overflow(Add)":
